@@ -69,7 +69,7 @@ fn c01(seed: u64, cases: usize, model_path: &str, thorough: bool) -> serde_json:
     let mut dist: BTreeMap<String, u64> = BTreeMap::new(); let mut distinct = std::collections::BTreeSet::new();
     let mut disagreements = vec![]; let mut impl_vs_oracle = vec![]; let mut samples = vec![]; let mut execs = 0u64;
     let boundary: &[usize] = if thorough { &[0, 1, 999, 1000, 1001, 2500] } else { &[0, 1, 1001] };
-    let max_n = if thorough { 5 } else { 3 };
+    let max_n = if thorough { 5 } else { 4 };
     for case in 0..cases + boundary.len() {
         let n = r.range(2, max_n) as usize;
         let (c, feat) = if case < boundary.len() { (circ::and_chain(n, boundary[case]), circ::Features { ands: boundary[case], reuse: true, ..Default::default() }) }
